@@ -85,6 +85,10 @@ class Gen:
                 srcs = list(m.sources()) if m is not None else []
                 cands = ["System total", "System average"] + ["Subsystem " + x for x in srcs]
                 nm = self.r.pick(cands) if self.r.chance(0.5) else "%s%d" % (prefix, self.n)
+            elif style == "markup":
+                # names that look like console markup (legal: names are free strings)
+                fmt = self.r.pick(["[red]{p}{n}", "{p}{n}[/]", "[b]{p}[/b]{n}", "{p}[{n}]", "{p}{n}", "[link=x]{p}{n}", "{p} \\[{n}]"])
+                nm = fmt.format(p=prefix, n=self.n)
             elif style == "dot":
                 nm = self.r.pick(["%s:%d" % (prefix, self.n), "node", "edge", "graph", "%s%d" % (prefix, self.n), '%d" %s' % (self.n, prefix), "%s\\%d" % (prefix, self.n), "Scale", "cluster_%d" % self.n])
             else:
@@ -809,7 +813,7 @@ class Gen:
     def op_analyse(self, m):
         kind = self.r.wpick(
             [("solve", 5), ("rail_rep", 2), ("params", 1), ("limits", 1), ("phases", 1), ("tree", 1), ("save", 1),
-             ("make_diag", 1), ("make_hdiag", 0.7), ("plot_interp", 0.5)]
+             ("make_diag", 1), ("make_hdiag", 0.7), ("plot_interp", 1.2)]
         )
         return self.op_analysis_of(m, kind)
 
